@@ -386,6 +386,25 @@ func main() {
 				}
 			}
 		case orb.Bound:
+			// a bound measures as its boundary ring / polygon, in every metric
+			for _, m := range []struct {
+				name string
+				f    func(orb.Geometry) float64
+				as   orb.Geometry
+			}{
+				{"planar.Length", planar.Length, v.ToRing()}, {"geo.Length", geo.Length, v.ToRing()}, {"geo.LengthHaversine", geo.LengthHaversine, v.ToRing()},
+				{"geo.Area", geo.Area, v.ToPolygon()}, {"planar.Area", planar.Area, v.ToPolygon()},
+			} {
+				m := m
+				got, p1 := try(func() interface{} { return m.f(v) })
+				want, p2 := try(func() interface{} { return m.f(m.as) })
+				if p1 == "" && p2 == "" {
+					g, w := got.(float64), want.(float64)
+					if math.Abs(g-w) > 1e-9*math.Max(math.Abs(g), math.Abs(w)) {
+						c.Failf("typed-vs-generic", "%s(%s) = %v, its boundary %T measures %v", m.name, desc, g, m.as, w)
+					}
+				}
+			}
 			if a, p := try(func() interface{} { return planar.Area(v) }); p == "" {
 				if want := (v.Max[0] - v.Min[0]) * (v.Max[1] - v.Min[1]); a.(float64) != want {
 					c.Failf("typed-vs-generic", "planar.Area(%s) = %v want %v", desc, a, want)
